@@ -4,8 +4,8 @@ import (
 	"bytes"
 	"encoding/json"
 	"fmt"
-	"go/format"
 	"go/ast"
+	"go/format"
 	"go/scanner"
 	"go/token"
 	"math/rand"
@@ -17,8 +17,8 @@ import (
 
 	"github.com/dave/dst"
 	"github.com/dave/dst/decorator"
-	"github.com/dave/dst/decorator/resolver/guess"
 	"github.com/dave/dst/decorator/resolver/goast"
+	"github.com/dave/dst/decorator/resolver/guess"
 	"github.com/dave/dst/dstutil"
 )
 
